@@ -96,7 +96,49 @@ def summed_forms(ctx):
                 ctx.count('summed:ok')
 
 
+def persp_probe(ctx, seed):
+    """perspective atoms whose scale is an affine expression with a constant term, in constraint and objective position, ro and
+    dro front ends: with the decisions pinned, `min t s.t. pexp(x, a*s + b) <= t` must return (a s0 + b) exp(x0 / (a s0 + b))
+    (and the plog analogue)"""
+    import rsome as rso
+    from rsome import ro, dro
+    r = np.random.default_rng(seed)
+    front = str(r.choice(['ro', 'dro']))
+    kind = str(r.choice(['pexp', 'plog']))
+    a = float(r.choice([0.5, 1.0, 2.0])); b = float(r.choice([0.25, 0.5, 1.0, -0.25])); s0 = float(r.choice([1.0, 1.5, 2.0]))
+    sc = a * s0 + b
+    x0 = float(r.choice([-1.0, 0.5, 1.0])) if kind == 'pexp' else float(r.choice([0.5, 1.0, 3.0]))
+    mult = float(r.choice([1.0, 2.0])); pos = str(r.choice(['constraint', 'objective']))
+    case = {"persp_seed": seed, "front": front, "atom": kind, "scale": "%g*s+%g" % (a, b), "s0": s0, "x0": x0, "mult": mult, "position": pos}
+    ctx.search_cases += 1; ctx.evaluations += 1
+    truth = mult * (sc * np.exp(x0 / sc) if kind == 'pexp' else sc * np.log(x0 / sc))
+    try:
+        with C.quiet():
+            m = ro.Model() if front == 'ro' else dro.Model(2)
+            x = m.dvar(); s = m.dvar(); t = m.dvar()
+            e = mult * (rso.pexp(x, a * s + b) if kind == 'pexp' else rso.plog(x, a * s + b))
+            if pos == 'constraint':
+                if kind == 'pexp':
+                    m.min(t); m.st(e <= t)
+                else:
+                    m.max(t); m.st(e >= t)
+            else:
+                (m.min if kind == 'pexp' else m.max)(e)
+            m.st(x == x0, s == s0)
+        val = C.solve_model(m)
+    except C.SkipCase:
+        ctx.count('persp:skipped'); return
+    except Exception as ex:
+        ctx.hit('perspective-scale-compile-or-solve-error', {"error": type(ex).__name__ + ': ' + str(ex)[:200]}, case); return
+    if abs(val - truth) > 2e-4 * (1 + abs(truth)):
+        ctx.hit('perspective-affine-scale-wrong-value', {"solver_value": float(val), "closed_form": float(truth)}, case)
+    else:
+        ctx.count('persp:ok:' + front + ':' + kind)
+
+
 def run(ctx):
+    for k in range(ctx.n(24, 300)):
+        persp_probe(ctx, int(ctx.rng.integers(2 ** 31)))
     # correspondence: the Lean atom encoders vs the real do_math() on random single- and multi-atom models (exact)
     C.run_difftest(ctx, 'test_atoms_soc.py', ctx.n(150, 3000), 'atom encodings A/M/I/E/S/Q/rsocone, bound folding, vtype vector')
     C.run_difftest(ctx, 'test_atoms_exp.py', ctx.n(120, 2500), 'atom encodings X/L/P/F/pexp/plog/KL')
@@ -111,6 +153,10 @@ def run(ctx):
 
 def replay(rp):
     case = rp['case']
+    if 'persp_seed' in case:
+        ctx = C.Ctx('C06', 'quick', 0)
+        persp_probe(ctx, case['persp_seed'])
+        return {"hits": [(h['key'], h['detail']) for h in ctx.hits], "fails": bool(ctx.hits)}
     if 'desc' not in case:
         return {"fails": True, "case": case}
     d = case['desc']
